@@ -33,6 +33,11 @@ def eval_comprehension(interp, node, env, kind):
         raise Unsupported("async comprehension")
     # evaluate the first iterable in the enclosing scope (python semantics)
     first_iter = interp.eval(gens[0].iter, env)
+    from . import arrays as _A
+
+    if isinstance(first_iter, _A.SIntList):
+        _lst = first_iter
+        first_iter = SSeq(_lst.n, lambda k, _lst=_lst: _lst.at(k), f"items of {_lst.name}")
     if hasattr(first_iter, "pyvc_comp"):
         if len(gens) != 1:
             raise Unsupported("nested comprehension over an abstract collection")
@@ -101,6 +106,15 @@ def eval_comprehension(interp, node, env, kind):
 
     rec(0, _child_env(interp, env))
     if kind == "dict":
+        hook = getattr(interp, "display_hook", None)
+        if hook is not None:
+            r = hook(interp, "dict", dres, env)
+            if r is not None:
+                src = getattr(first_iter, "d", None)  # a view of an abstract dict: keep what is known about its keys
+                if src is not None and hasattr(src, "maybe_absent") and hasattr(r, "maybe_absent"):
+                    r.maybe_absent = {k for k, _ in r.entries if k in src.maybe_absent}
+                    r.order_abstract = src.order_abstract
+                return r
         return dres
     if kind == "gen":
         return _Iter(results)
